@@ -223,7 +223,7 @@ func creaderJobs(tier string) []*Job {
 }
 
 var frame2Outside = []string{
-	"concurrency != 1 (goroutine pipelines not encoded)",
+	"concurrency != 1 except where stated (C08 covers the pipelines)",
 	"frames larger than the templates (tiny stored blocks, 40..70-byte compressible inputs); 64 KiB..4 MiB block boundaries except in the dependent-block family",
 }
 
@@ -241,18 +241,30 @@ func init() {
 		}, Outside: frame2Outside, Assumptions: append([]string{"mutation values are enumerated, and frame content is concrete in the mutation family: a symbolic byte under XXH32 comparisons only poses collision searches the solvers do not finish"}, frameAssumptions...),
 		Filter: func(id string) bool { return hasPrefix(id, "accept-") }}
 	checkDefs["C07"] = &CheckDef{Property: "C07",
-		Jobs: func(tier string) []*Job { return append(streamJobs(tier), repeatJobs(tier)...) },
+		Jobs: func(tier string) []*Job {
+			return append(append(streamJobs(tier), repeatJobs(tier)...), concStreamJobs(tier)...)
+		},
 		Bounds: func(tier string) []string {
-			return []string{"arbitrary streams as in C05; k = 1, 40, 90 repetitions of a legacy magic / empty skippable frame (recursion depth must not grow with k; natively replayed with k = 30 million)", "implicit obligations on every path: no escaping panic, every loop within its unwinding bound, call depth <= 48, every single allocation <= 8 MiB + 64 bytes whatever the symbolic fields"}
-		}, Outside: append([]string{"'never blocks forever' with concurrency > 1; heap growth in concurrent mode"}, frame2Outside...), Assumptions: frameAssumptions,
+			return []string{"the same arbitrary streams (4..9 symbolic bytes after a valid header, and the other shapes) read by a Reader with ConcurrencyOption(2) under every schedule with at most one delay: no deadlock (every call returns), no panic in a library goroutine", "arbitrary streams as in C05; k = 1, 40, 90 repetitions of a legacy magic / empty skippable frame (recursion depth must not grow with k; natively replayed with k = 30 million)", "implicit obligations on every path: no escaping panic, every loop within its unwinding bound, call depth <= 48, every single allocation <= 8 MiB + 64 bytes whatever the symbolic fields"}
+		}, Outside: append([]string{"concurrent Reader: schedules with more than one delay, streams longer than 10 bytes after the header, concurrency above 2; heap growth in concurrent mode"}, frame2Outside...), Assumptions: append([]string{concAssumptions[0], concAssumptions[1]}, frameAssumptions...),
 		Filter: func(id string) bool {
-			return hasPrefix(id, "stream-") || hasPrefix(id, "repeat-") || hasPrefix(id, "no-panic") || hasPrefix(id, "unwind") || hasPrefix(id, "alloc-")
+			return id == "conc-deadlock" || hasPrefix(id, "stream-") || hasPrefix(id, "repeat-") || hasPrefix(id, "no-panic") || hasPrefix(id, "unwind") || hasPrefix(id, "alloc-")
 		}}
-	checkDefs["C15"] = &CheckDef{Property: "C15", Jobs: faultJobs,
+	checkDefs["C15"] = &CheckDef{Property: "C15",
+		Jobs: func(tier string) []*Job {
+			jobs := append(faultJobs(tier), concWriterFaultJobs(tier)...)
+			for _, j := range concReaderJobs(tier) {
+				if j.Params["dmg"] == 3 {
+					jobs = append(jobs, j)
+				}
+			}
+			return jobs
+		},
 		Bounds: func(string) []string {
-			return []string{tmpl, "writer faults: the failing call index of the sink is chosen symbolically among all calls of the fault-free run (Write/Flush/Close and ReadFrom deliveries); reader faults: failing call index of the source chosen symbolically, under 4 fragmentation modes (fill, single bytes, data with io.EOF, zero-length reads) and 3 read-back modes"}
+			return []string{tmpl, "writer faults: the failing call index of the sink is chosen symbolically among all calls of the fault-free run (Write/Flush/Close and ReadFrom deliveries); reader faults: failing call index of the source chosen symbolically, under 4 fragmentation modes (fill, single bytes, data with io.EOF, zero-length reads) and 3 read-back modes",
+				"concurrent operation (ConcurrencyOption(2), thorough also 3): sink failing at call 0..5 (0..7) of six call sequences and ReadFrom source failing at call 0..1, under every schedule with at most 1 (thorough 2) delays: the failure is returned by some call, nothing is written after it, the sink holds a prefix of the sequential fault-free output; concurrent Reader with the source failing at call 0..7: never a clean end"}
 		}, Outside: frame2Outside, Assumptions: frameAssumptions,
-		Filter: func(id string) bool { return hasPrefix(id, "wfault-") || hasPrefix(id, "rfault-") || hasPrefix(id, "rfrag-") || hasPrefix(id, "no-panic") || hasPrefix(id, "unwind") }}
+		Filter: func(id string) bool { return hasPrefix(id, "cfault-") || hasPrefix(id, "wfault-") || hasPrefix(id, "rfault-") || hasPrefix(id, "rfrag-") || hasPrefix(id, "no-panic") || hasPrefix(id, "unwind") }}
 	checkDefs["C16"] = &CheckDef{Property: "C16", Jobs: depJobs,
 		Bounds: func(string) []string {
 			return []string{"hand-assembled frames with BlockIndependence = 0: preceding block sizes {3,5} {40000x2} {65536,1} {65536,65536,1} {40000x4} {70000}, stored or literal-only compressed, then one compressed block whose match has offset in {1, len(prev), len(prev)+1, 65534, 65535, everything} and length {4, 20, 300}; the bytes the match reads, the literals and the tail are symbolic, the rest concrete filler; content checksum on/off; Read (>= block, 1000-byte buffers), WriteTo; ConcurrencyOption(4) must fall back silently"}
